@@ -100,8 +100,116 @@ type Frame struct {
 }
 
 type Exec struct {
-	vc  *VC
-	eng *Engine
+	vc   *VC
+	eng  *Engine
+	priv []privCell // function-private heap cells (captured locals) currently live
+	top  *Frame
+}
+
+// privCell: a heap-allocated local variable whose address never escapes
+// except into closures of the same function.  Calls to code outside this
+// function cannot write it.
+type privCell struct {
+	key   string
+	ptr   string
+	alloc *ssa.Alloc
+	fr    *Frame
+}
+
+// addrPrivate: every use of the Alloc is a load/store/field address or a
+// closure capture (no call argument, no store of the address itself).
+func addrPrivate(a *ssa.Alloc) bool {
+	var ok func(v ssa.Value, depth int) bool
+	ok = func(v ssa.Value, depth int) bool {
+		refs := v.Referrers()
+		if refs == nil {
+			return false
+		}
+		for _, r := range *refs {
+			switch u := r.(type) {
+			case *ssa.DebugRef:
+			case *ssa.Store:
+				if u.Val == v {
+					return false
+				}
+			case *ssa.UnOp:
+				if u.Op != token.MUL {
+					return false
+				}
+			case *ssa.FieldAddr:
+				if depth > 4 || !ok(u, depth+1) {
+					return false
+				}
+			case *ssa.IndexAddr:
+				if depth > 4 || !ok(u, depth+1) {
+					return false
+				}
+			case *ssa.MakeClosure:
+			default:
+				return false
+			}
+		}
+		return true
+	}
+	return ok(a, 0)
+}
+
+// closureWrites: a closure of the function writes the captured variable.
+func closureWrites(fn *ssa.Function, a *ssa.Alloc) bool {
+	for _, af := range fn.AnonFuncs {
+		for _, fv := range af.FreeVars {
+			if fv.Name() != a.Comment {
+				continue
+			}
+			if refs := fv.Referrers(); refs != nil {
+				for _, r := range *refs {
+					switch u := r.(type) {
+					case *ssa.Store:
+						return true
+					case *ssa.FieldAddr, *ssa.IndexAddr, *ssa.MakeClosure:
+						_ = u
+						return true // conservative
+					}
+				}
+			}
+		}
+	}
+	return false
+}
+
+// havocAllKeep forgets all memory except the function-private cells, which
+// keep their values (optionally skipping cells the loop itself writes).
+func (x *Exec) havocAllKeep(st *State, skip map[*ssa.Alloc]bool) {
+	type saved struct {
+		c   privCell
+		val string
+	}
+	var keep []saved
+	for _, c := range x.priv {
+		if skip != nil && skip[c.alloc] {
+			continue
+		}
+		keep = append(keep, saved{c, x.vc.freshDef("keep_"+c.alloc.Comment, x.vc.sortOf(pointee(c.alloc.Type())), fmt.Sprintf("(select %s %s)", x.vc.heapGet(st, c.key), c.ptr))})
+	}
+	// heaps of types the function's contract declares preserved
+	savedKeys := map[string]string{}
+	if x.top != nil && x.top.ct != nil {
+		for _, tt := range x.top.ct.Preserves {
+			tt = strings.TrimSpace(strings.SplitN(tt, "[A]", 2)[0])
+			t := x.eng.typeFromText(x.top.ct.PkgPath, tt, x.top.ct.Src)
+			for _, k := range []string{x.vc.heapKey("H", t), x.vc.heapKey("E", t), x.vc.heapKey("E", types.NewPointer(t)), x.vc.heapKey("H", types.NewSlice(types.NewPointer(t)))} {
+				savedKeys[k] = x.vc.heapGet(st, k)
+			}
+			x.vc.usedAssumed["uncontracted calls in "+x.top.unit+" do not modify values of type "+tt] = true
+		}
+	}
+	x.vc.havocAll(st)
+	for k, v := range savedKeys {
+		st.heap[k] = v
+	}
+	for _, k := range keep {
+		st.heap[k.c.key] = fmt.Sprintf("(store %s %s %s)", x.vc.heapGet(st, k.c.key), k.c.ptr, k.val)
+	}
 }
 
 // siteOrd: ordinal of an at-site instruction among the sites of the same
@@ -452,6 +560,17 @@ func (x *Exec) callMods(fr *Frame, ci ssa.CallInstruction, li *loopInfo) {
 		return
 	}
 	li.allocates = true
+	// calls declared pure at their site in the function's own contract
+	if fr.ct != nil && fr.inlineTag == "" {
+		if in, ok := ci.(ssa.Instruction); ok && in.Parent() == fr.fn {
+			site := fmt.Sprintf("call:%s#%d", shortCallee(c), fr.siteOrd("call:"+shortCallee(c), in))
+			for _, a := range fr.ct.Ats {
+				if a.Site == site && a.Kind == "pure" {
+					return
+				}
+			}
+		}
+	}
 	ct, callee := x.eng.contractForCall(fr.fn, c)
 	if ct == nil {
 		if callee != nil && x.eng.isInlineCandidate(callee) {
@@ -509,6 +628,7 @@ func (x *Exec) callMods(fr *Frame, ci ssa.CallInstruction, li *loopInfo) {
 		li.modAll = true
 		return
 	}
+	_ = 0
 	for _, m := range ct.Modifies {
 		keys, ghost, err := x.eng.modClauseKeys(x.vc, ct, callee, c, m)
 		if err != nil {
@@ -747,7 +867,34 @@ func (x *Exec) enterLoop(fr *Frame, li *loopInfo, cur *State, ins []edgeState) *
 	hv := cur
 	hv.pc = x.vc.freshDef("pc_loop", "Bool", cur.pc)
 	if li.modAll {
-		x.vc.havocAll(hv)
+		skip := map[*ssa.Alloc]bool{}
+		for b := range li.blocks {
+			for _, in := range b.Instrs {
+				if s, ok := in.(*ssa.Store); ok {
+					root := s.Addr
+					for {
+						if fa, ok := root.(*ssa.FieldAddr); ok {
+							root = fa.X
+							continue
+						}
+						if ia, ok := root.(*ssa.IndexAddr); ok {
+							root = ia.X
+							continue
+						}
+						break
+					}
+					if a, ok := root.(*ssa.Alloc); ok {
+						skip[a] = true
+					}
+				}
+			}
+		}
+		for _, c := range x.priv {
+			if closureWrites(c.fr.fn, c.alloc) {
+				skip[c.alloc] = true
+			}
+		}
+		x.havocAllKeep(hv, skip)
 	} else {
 		for _, k := range sortedKeys(li.modKeys) {
 			hv.heap[k] = x.vc.freshConst("hv_"+x.vc.heapNames[k], x.vc.heapSorts[k])
